@@ -52,13 +52,15 @@ def safe_for_code(w):
 URLS = st.tuples(st.integers(0, 99), st.sampled_from(['&', '"', "'", '<', '>', 'a&b=c', '%22', '&amp;'])).map(lambda t: 'http://e.x/q%da%s0%dq' % (t[0], t[1], t[0]))
 TITLES = st.one_of(st.none(), st.tuples(st.integers(0, 99), st.sampled_from(['&', '<', '>', 'a&b', '1<2', '>x<', '\t'])).map(lambda t: 'q%da%s0%dq' % (t[0], t[1], t[0])))   # no quote characters: they delimit the title
 IMGS = st.tuples(st.integers(0, 99), st.sampled_from(['&', "'", 'a&b', '%20', '<', '>'])).map(lambda t: 'img/q%da%s0%dq.png' % (t[0], t[1], t[0]))
-META = st.lists(st.tuples(st.sampled_from(['Title', 'Author', 'Date', 'Keywords', 'My Key', 'language', 'css', 'latex config', 'Subtitle']),
-                          st.tuples(st.integers(0, 99), st.sampled_from(ATTR_PAYLOADS + ['<b>', '</title>', '--']))), max_size=4, unique_by=lambda t: t[0]) \
-    .map(lambda m: [[k, 'q%da%s0%dq' % (n, p, n)] for k, (n, p) in m] or None)
+NUMERIC_KEYS = ['Base Header Level', 'HTML Header Level', 'ODF Header Level', 'EPUB Header Level']
+META = st.lists(st.tuples(st.sampled_from(['Title', 'Author', 'Date', 'Keywords', 'My Key', 'language', 'css', 'latex config', 'Subtitle', 'uuid', 'Copyright', 'Affiliation',
+                                           'Revision', 'BibTeX', 'Quotes Language'] + NUMERIC_KEYS),
+                          st.tuples(st.integers(0, 99), st.sampled_from(ATTR_PAYLOADS + ['<b>', '</title>', '--', '#-5', '#0', '#3', '#7', '#99999', '#x']))), max_size=5, unique_by=lambda t: t[0]) \
+    .map(lambda m: [[k, (p[1:] if p.startswith('#') else 'q%da%s0%dq' % (n, p, n))] for k, (n, p) in m] or None)
 CFG = gdoc.Cfg(words=word(), inlines=['t', 'em', 'st', 'code', 'link', 'img', 'esc', 'bare', 'fnref', 'ifn', 'imath'],
                blocks=['para', 'atx', 'setext', 'hr', 'fence', 'icode', 'quote', 'list', 'table', 'figure', 'deflist', 'toc'],
                code=word().map(safe_for_code), codelines=word().map(safe_for_code), urls=URLS, titles=TITLES, images=IMGS, meta=META,
-               langs=st.sampled_from([None] + LANGS))
+               langs=st.sampled_from([None] + LANGS), cell_inlines=['t', 'em', 'code', 'img', 'link', 'fnref'], cell_pad=st.booleans())
 EXTS = [wk.EXT_DEFAULT, wk.EXT_DEFAULT & ~EXT['SMART'], EXT['SMART'], wk.EXT_COMPAT, wk.EXT_DEFAULT | EXT['COMPLETE'], wk.EXT_DEFAULT | EXT['CRITIC_ACCEPT'], wk.EXT_DEFAULT | EXT['NO_LABELS']]
 
 
@@ -143,7 +145,9 @@ def in_vocabulary(member, name):
     if member.startswith('itmz'):
         return name in ITMZ_NAMES
     if member.startswith('epub'):
-        return name in (HTML_NAMES if member.endswith('.xhtml') else OPF_NAMES)
+        if member.endswith('.xhtml'):
+            return name in HTML_NAMES or re.fullmatch(r'h\d+', name) is not None      # a base header level pushes headings past h6
+        return name in OPF_NAMES
     return ':' in name and name.split(':')[0] in ODF_PREFIXES         # fodt / odt members
 
 
